@@ -11,6 +11,11 @@ RESUME_REQ = (st.RUNNING, st.RESUMING)
 
 
 def outcome(sim):
+    if sim.status in (st.SUCCEEDED, st.FAILED, st.CANCELED):
+        # compare what the provider obtains at the end: render on a copy (the explored state is untouched)
+        cp = Sim.restore(sim.scn, sim.snapshot())
+        cp.apply(["render"], check_pure=False)
+        sim = cp
     ws = sim.c.workflow_state
     execd = sorted("%s:%s" % (r["id"], r.get("status")) for r in ws.sequence if r["id"] not in ENGINE_COMMANDS)
     errs = sorted(json.dumps({k: e.get(k) for k in ("message", "task_id", "task_transition_id")}, sort_keys=True)
